@@ -129,8 +129,7 @@ pub fn run(t: &[&str]) -> Option<String> {
 //   B<ty> browse, C<ty> browse_cache, b<ty> stop_browse, H<host> resolve_hostname,
 //   h<host> stop_resolve_hostname, R<ty>:<name>:<host> register (ip 192.168.1.10, port 80),
 //   U<fullname> unregister, M monitor, S status, G get_metrics, X shutdown,
-//   L<n> set_service_name_len_max, I<n> set_ip_check_interval, V<name> verify (timeout 1 s),
-//   A<0|1> accept_unsolicited
+//   L<n> set_service_name_len_max, I<n> set_ip_check_interval, V<name> verify (timeout 1 s)
 // and, in the same list, network input delivered before the iteration (not a call, owns no
 // channel):  P<ty>*<n>  = one response datagram with n PTR answers announcing n new instances
 // of type <ty>.
@@ -230,7 +229,6 @@ fn do_call(d: &ServiceDaemon, c: &str, chans: &mut Vec<(usize, Ch, bool)>, idx: 
         "L" => unit!(d.set_service_name_len_max(arg.parse::<u8>().unwrap_or(15))),
         "I" => unit!(d.set_ip_check_interval(arg.parse::<u32>().unwrap_or(5))),
         "V" => unit!(d.verify(s(arg), Duration::from_millis(1000))),
-        "A" => unit!(d.accept_unsolicited(arg == "1")),
         _ => "BadCall".to_string(),
     }));
     r.unwrap_or_else(|_| "PANIC".to_string())
@@ -244,12 +242,9 @@ fn drain(chans: &mut Vec<(usize, Ch, bool)>, snapshot: bool) -> Vec<String> {
     for (idx, ch, closed) in chans.iter_mut() {
         let mut evs: Vec<&'static str> = Vec::new();
         macro_rules! pump {
-            ($rx:expr, $f:expr) => {
+            ($rx:expr, $f:expr) => {{
                 let mut left = if snapshot { $rx.len() } else { usize::MAX };
-                loop {
-                    if left == 0 {
-                        break;
-                    }
+                while left > 0 {
                     left -= 1;
                     match $rx.try_recv() {
                         Ok(e) => {
@@ -267,7 +262,7 @@ fn drain(chans: &mut Vec<(usize, Ch, bool)>, snapshot: bool) -> Vec<String> {
                         }
                     }
                 }
-            };
+            }};
         }
         match ch {
             Ch::Svc(rx, started) => pump!(rx, |e: ServiceEvent| match e {
@@ -332,7 +327,7 @@ fn goodbyes(sim: &vh::SimDaemon) -> Vec<String> {
 
 const WALL_MS: u64 = 20000;
 /// wall-clock wait for one iteration of a c14 history before the daemon thread counts as stuck
-const C14_WALL_MS: u64 = 8000;
+const C14_WALL_MS: u64 = 5000;
 
 /// A response with `n` PTR answers `<ty> PTR p<tag>x<j>.<ty>` (uncompressed).
 fn ptr_announcement(ty: &str, n: usize, tag: usize) -> Vec<u8> {
@@ -411,14 +406,11 @@ fn c14(spec: &str) -> String {
         // goodbyes are part of the observation only in the step in which the daemon ends
         let gb = if exited { goodbyes(&sim) } else { let _ = sim.take_egress(); Vec::new() };
         // a client blocked behind a stuck daemon reads nothing any more
-        let ev = if dead == "|dead=stuck" {
+        // (reading a listener would free the daemon thread blocked in `send`)
+        if dead == "|dead=stuck" {
             was_stuck = true;
-            drain(&mut chans, true)
-        } else if was_stuck {
-            Vec::new()
-        } else {
-            drain(&mut chans, false)
-        };
+        }
+        let ev = if was_stuck { Vec::new() } else { drain(&mut chans, false) };
         recs.push(format!(
             "r={}|ev={}|gb={}|x={}{}",
             if rs.is_empty() { "-".to_string() } else { rs.join(",") },
@@ -490,7 +482,7 @@ fn stress_shutdown(n_threads: usize, n_calls: usize, seed: u64) -> String {
             let mut n = 0usize;
             let mut after_ok = 0usize;
             let shut_at = if k == 0 { (next() as usize) % n_calls.max(1) } else { usize::MAX };
-            let wait = Duration::from_millis(3000);
+            let wait = Duration::from_millis(5000);
             for i in 0..n_calls {
                 let known_dead = saw.load(Ordering::SeqCst);
                 let which = if i == shut_at { 99 } else { next() % 7 };
